@@ -111,6 +111,7 @@ type Interp struct {
 	setupCells           map[*Cell]bool
 	setupMaps            map[*Map]bool
 	self                 *selfState // translator validation (selftest.go)
+	epoch                int        // incremented per path (map snapshots, value.go)
 	unwinding            bool       // a fatalStack panic is in flight
 	castRaised, castSeen int        // mis-typed variant accesses raised / reported to the harness by sv.Outcome
 }
@@ -156,6 +157,7 @@ func (in *Interp) resetPath() {
 	in.byteDom = map[string]*[4]uint64{}
 	in.entangled = map[string]bool{}
 	in.castRaised, in.castSeen = 0, 0
+	in.epoch++
 }
 
 func isRepoPkgPath(p string) bool {
@@ -366,7 +368,9 @@ func (in *Interp) callValue(caller *Frame, fnv Value, args []Value) Value {
 
 var maxDepth = 20000
 
-type fatalStack struct{}
+// fatalStack: the process is gone (stack overflow) or blocked for good
+// (deadlock); why is the outcome class after "fatal:"
+type fatalStack struct{ why string }
 
 func (in *Interp) callFn(caller *Frame, fn *ssa.Function, args []Value, env []Value) (result Value) {
 	fi := in.info(fn)
@@ -397,7 +401,7 @@ func (in *Interp) callFn(caller *Frame, fn *ssa.Function, args []Value, env []Va
 		// the engine stops at is settled by the native replay.
 		in.events = append(in.events, "fatal: call depth > "+fmt.Sprint(maxDepth)+" (stack overflow) at "+in.where())
 		in.unwinding = true
-		panic(fatalStack{})
+		panic(fatalStack{"stack-overflow"})
 	}
 	fr := &Frame{fn: fn, info: fi, regs: make([]Value, fi.n), caller: caller}
 	if len(args) != len(fn.Params) {
